@@ -304,7 +304,7 @@ func run1(t *testing.T, c Case) (res Result) {
 
 		// ---- monitors ----
 		wasPrimary := false
-		var deadSince time.Time
+		var deadSince, lostAt time.Time
 		var primaryCtx context.Context
 		handedOff := false
 		handoffTarget := uint64(0)
@@ -413,6 +413,14 @@ func run1(t *testing.T, c Case) (res Result) {
 				}
 				lab.Settle(50 * time.Millisecond)
 				obs = append(obs, fmt.Sprintf("lost@%s", now.Round(time.Second)))
+				lostAt = time.Now()
+			}
+			// a node that is not primary serves no replication stream: the ones opened while it was primary end with its
+			// primary-scoped context, and new ones are refused
+			if !isP && M != nil && M.Running() && !lostAt.IsZero() && time.Since(lostAt) >= time.Second && !N.Store.IsPrimary() {
+				if sub := N.Store.SubscriberByNodeID(M.Store.ID()); sub != nil {
+					r.viol("C08/stream-served-after-loss", "t=%s: N stopped being primary %s ago but still serves the replication stream that M opened", now, time.Since(lostAt).Round(time.Millisecond))
+				}
 			}
 			if !wasPrimary && isP {
 				obs = append(obs, fmt.Sprintf("primary@%s", now.Round(time.Second)))
